@@ -57,3 +57,19 @@ Example C03_example :
   run_backward t 5 1%Z = Some (110%Z, [5;3;2;1;0]%nat)
   /\ run_forward t 5 1%Z = 110%Z.
 Proof. vm_compute. split; reflexivity. Qed.
+
+From AG Require Import Tagged Tower TaggedProof TowerAlg FwdCorrect TowerRing MixInterp MixStep MixBackward MixEval.
+
+(* (4) the same on the engine model itself (one global node store shared by all
+   traces, rule bodies run through the primitive wrapper and therefore traced by
+   every enclosing level): from any store that is a DAG, for any end node of a
+   trace, the backward pass started with cotangent 1 returns a value whose
+   meaning at the enclosing levels is the derivative of the end node with respect
+   to the root of its trace - or runs out of fuel; it never raises. *)
+Theorem C03_engine_backward_pass :
+  forall (L : list level) (r : nat) (s : state Z) (en f : nat),
+    ldesc L -> SInv (store Z s) -> tnode (store Z s) (wf (store Z s) L) r (S en) en ->
+    mgood L s (Some (dnode (length L) (store Z s) (interp (store Z s) L) (S en) en))
+          (Tagged.backward_pass Z Z.add Z.sub Z.mul Z.opp zF Z.sgn f (VNum Z 1%Z) en s).
+Proof. exact backward_pass_good. Qed.
+Print Assumptions C03_engine_backward_pass.
